@@ -273,7 +273,22 @@ func (p *Prog) Func(pkgRel, recv, name string) *ssa.Function {
 		return nil
 	}
 	if recv == "" {
-		return sp.Func(name)
+		if f := sp.Func(name); f != nil {
+			return f
+		}
+		// a free function turned into a method (or back) keeps its role: accept the one method of that name in the package
+		var cand *ssa.Function
+		n := 0
+		for fn := range p.AllFuncs {
+			if fn.Pkg == sp && fn.Name() == name && fn.Signature.Recv() != nil && fn.Origin() == nil && fn.Parent() == nil && fn.Synthetic == "" {
+				cand = fn
+				n++
+			}
+		}
+		if n == 1 {
+			return cand
+		}
+		return nil
 	}
 	tn := strings.TrimPrefix(recv, "*")
 	obj := pk.Types.Scope().Lookup(tn)
